@@ -12,6 +12,11 @@ Layer B: `vh lir-dump` prints every MIR While of compiled programs (optimised an
 Layer C: generated permuting tail calls over int and non-int parameters, source semantics vs wasm vs TS.
 
 `loop(ck, tier, seed)` is called from checks/c01.py; `run()` is a standalone wrapper (evidence/C01loop.json).
+
+Open finding while this was written (exit 1 until repaired or registered): the saving temporary takes the type of the
+loop VALUE expression, which lower_expression does not lower (an enum with i31 / unboxed variants stays Id(enum) while
+the loop variable is AnyPointer): a swap of two such parameters traps in WebAssembly ("illegal cast").  Witness:
+work/c01loop/witness-enum-swap.sam; candidate repair: work/c01loop/fix-saved-loop-value-type.diff.
 """
 import concurrent.futures
 import json
@@ -179,6 +184,37 @@ def nested(s, inside=False):
     if k == 'sif':
         return any(nested(t, inside) for t in s[3])
     return False
+
+
+def single_assignment(s):
+    """every name of the loop is defined at most once (loop variable, Binary / operation target, final assignment,
+    break collector), `name := e` statements (Cast, LateInitAssignment) aside, which may repeat among themselves"""
+    defs, casts = [], set()
+
+    def go(s):
+        k = s[0]
+        if k == 'bin':
+            defs.append(s[1])
+        elif k == 'cast':
+            casts.add(s[1])
+        elif k == 'op':
+            if s[1] is not None and s[2] != 'decl':
+                defs.append(s[1])
+        elif k == 'if':
+            for t in s[2] + s[3]:
+                go(t)
+            defs.extend(fa[0] for fa in s[4])
+        elif k == 'sif':
+            for t in s[3]:
+                go(t)
+        elif k == 'while':
+            defs.extend(lv[0] for lv in s[1])
+            for t in s[2]:
+                go(t)
+            if s[3] is not None:
+                defs.append(s[3])
+    go(s)
+    return len(defs) == len(set(defs)) and not (casts & set(defs))
 
 
 # ------------------------------------------------------------------ programs
@@ -360,6 +396,7 @@ def loop(ck, tier, seed):
         jobs.append(('c01loop_%d' % si, body))
     outs = coq_eval_many(jobs, timeout=900) if ucases else []
     st = {'cases': len(cases), 'distinct': len(ucases), 'agree': 0, 'with_temporaries': 0, 'nested': 0, 'wf': 0, 'fresh': 0,
+          'single_assignment': sum(1 for c in ucases if single_assignment(c[2]['mir'])),
           'instances_equal': 0, 'instances_different': 0, 'instances_finished': 0, 'instances_where_no_save_differs': 0}
     bad_sem = []
     for si, (rc, o) in enumerate(outs):
@@ -406,9 +443,9 @@ def loop(ck, tier, seed):
         ck.count('loop:tie:' + k, v)
     ck.extra_cov['loop_tie'] = st
     ck.obligation('C01loop tie ran', bool(ucases) and st['distinct'] > 0, '%d loops, %d distinct' % (len(cases), len(ucases)))
-    print('C01loop: tie cases=%d distinct=%d model=real:%d with-temporaries:%d nested:%d wf:%d fresh:%d | instances equal:%d different:%d '
-          'finished:%d no-save-lowering-differs:%d' % (st['cases'], st['distinct'], st['agree'], st['with_temporaries'], st['nested'],
-                                                       st['wf'], st['fresh'], st['instances_equal'], st['instances_different'],
+    print('C01loop: tie cases=%d distinct=%d model=real:%d with-temporaries:%d nested:%d wf:%d fresh:%d single-assignment:%d | instances '
+          'equal:%d different:%d finished:%d no-save-lowering-differs:%d' % (st['cases'], st['distinct'], st['agree'], st['with_temporaries'], st['nested'],
+                                                       st['wf'], st['fresh'], st['single_assignment'], st['instances_equal'], st['instances_different'],
                                                        st['instances_finished'], st['instances_where_no_save_differs']))
     if ucases:
         ck.sample({'loop_case': {'function': ucases[0][2]['function'], 'mir': ucases[0][2]['mir'], 'lir': ucases[0][2]['lir']}})
